@@ -152,21 +152,49 @@ pub fn run_c17(chk: &Check, tier: Tier) {
     for &c in &quick_channels(tier) {
         // the complete concrete state space of the 14-bit scanner: reset from all 4097 states
         let vals: Vec<u8> = if c == 0 || tier.thorough() { (0..128).collect() } else { V3.to_vec() };
-        let sys = c08_system("C17", c, rep, &vals);
+        let mut sys = c08_system("C17", c, rep, &vals);
+        if vals.len() < 128 {
+            sys.storms = vec![(256, false), (65536, false), (65536, true)];
+        }
         let out = xs::explore(&sys, &Limits::default());
         engine::record(chk, &sys, &out, Some("C17"));
-        let sys = c11_system("C17", c, rep, if tier.thorough() { &V8 } else { &V3 }, false);
+        let mut sys = c11_system("C17", c, rep, if tier.thorough() { &V8 } else { &V3 }, false);
+        sys.storms = vec![(256, false), (65536, false), (65536, true)];
         let out = xs::explore(&sys, &Limits::default());
         engine::record(chk, &sys, &out, Some("C17"));
     }
     #[cfg(feature = "polling")]
     for &t in &[0u64, 2] {
         for &c in &quick_channels(tier) {
-            let sys = PollSys::new("C17", c, t, 1, &V3, false, PReport { reset: true, dup: true, ..Default::default() });
+            let mut sys = PollSys::new("C17", c, t, 1, &V3, false, PReport { reset: true, dup: true, ..Default::default() });
+            if c == quick_channels(tier)[0] {
+                sys.storms = vec![(256, false), (65536, false), (65536, true)];
+            }
             let out = xs::explore(&sys, &Limits::default());
             engine::record(chk, &sys, &out, Some("C17"));
         }
     }
+    // several channels touched before the reset: three-channel products with reset == new judged
+    // on the multi-channel scanner
+    fn triples<S: Scanner>(chk: &Check, timeout: u64) {
+        for (a, b, c) in [(0u8, 8u8, 15u8), (2, 3, 4)] {
+            let mut sys = crate::iso::IsoSys::<S>::new(a, b, timeout, false);
+            sys.chans[2] = c;
+            sys.triple = true;
+            sys.check_reset = true;
+            sys.pid = "C17";
+            if S::POLLS {
+                sys.ctrls = vec![98, 99, 6];
+                sys.sys_msgs.truncate(1);
+            }
+            let out = xs::explore(&sys, &Limits::default());
+            engine::record(chk, &sys, &out, Some("C17"));
+        }
+    }
+    triples::<ControlChange14BitMessageScanner>(chk, 0);
+    triples::<ParameterNumberMessageScanner>(chk, 0);
+    #[cfg(feature = "polling")]
+    triples::<PollingParameterNumberMessageScanner>(chk, 2);
     chk.sample(json!({"state": "polling scanner, timeout 2 ms, data entry MSB pending for 1 ms on channel 9", "check": "copy.reset(); copy == PollingParameterNumberMessageScanner::new(2 ms)"}));
 }
 
